@@ -39,8 +39,42 @@ var goKinds = map[string]reflect.Type{
 	"float32": reflect.TypeOf(float32(0)),
 }
 
+// named types with the same underlying kinds: Go API authors declare `type Color string`,
+// `type Level int`; conversion must go through the declared type, not just its kind
+type (
+	NString  string
+	NBool    bool
+	NInt     int
+	NInt64   int64
+	NFloat64 float64
+	NInt8    int8
+	NInt16   int16
+	NInt32   int32
+	NUint    uint
+	NUint8   uint8
+	NUint16  uint16
+	NUint32  uint32
+	NUint64  uint64
+	NFloat32 float32
+)
+
+var goNamedKinds = map[string]reflect.Type{
+	"string": reflect.TypeOf(NString("")), "bool": reflect.TypeOf(NBool(false)), "int": reflect.TypeOf(NInt(0)), "int64": reflect.TypeOf(NInt64(0)), "float64": reflect.TypeOf(NFloat64(0)),
+	"int8": reflect.TypeOf(NInt8(0)), "int16": reflect.TypeOf(NInt16(0)), "int32": reflect.TypeOf(NInt32(0)),
+	"uint": reflect.TypeOf(NUint(0)), "uint8": reflect.TypeOf(NUint8(0)), "uint16": reflect.TypeOf(NUint16(0)), "uint32": reflect.TypeOf(NUint32(0)), "uint64": reflect.TypeOf(NUint64(0)),
+	"float32": reflect.TypeOf(NFloat32(0)),
+}
+
+func goTypeOf(kind string, named bool) reflect.Type {
+	if named {
+		return goNamedKinds[kind]
+	}
+	return goKinds[kind]
+}
+
 type goregCfg struct {
-	Mode   string       `json:"mode"` // func | method | conv
+	Named  bool         `json:"named,omitempty"` // parameters and result use the named types above
+	Mode   string       `json:"mode"`            // func | method | conv
 	Params []string     `json:"params"`
 	Result string       `json:"result"` // "" = none
 	Args   []sb.ValDesc `json:"args"`
@@ -71,8 +105,8 @@ func renderGo(v reflect.Value) string {
 	return "?" + v.Kind().String()
 }
 
-func goValueOf(kind string, d sb.ValDesc) reflect.Value {
-	t := goKinds[kind]
+func goValueOf(kind string, named bool, d sb.ValDesc) reflect.Value {
+	t := goTypeOf(kind, named)
 	v := reflect.New(t).Elem()
 	switch t.Kind() {
 	case reflect.String:
@@ -201,10 +235,10 @@ func goregHandler(req *sb.Req) *sb.Rep {
 	case "func":
 		var in, outT []reflect.Type
 		for _, p := range cfg.Params {
-			in = append(in, goKinds[p])
+			in = append(in, goTypeOf(p, cfg.Named))
 		}
 		if cfg.Result != "" {
-			outT = append(outT, goKinds[cfg.Result])
+			outT = append(outT, goTypeOf(cfg.Result, cfg.Named))
 		}
 		fn := reflect.MakeFunc(reflect.FuncOf(in, outT, false), func(args []reflect.Value) []reflect.Value {
 			out.Called = true
@@ -214,7 +248,7 @@ func goregHandler(req *sb.Req) *sb.Rep {
 			if cfg.Result == "" {
 				return nil
 			}
-			return []reflect.Value{goValueOf(cfg.Result, cfg.Ret)}
+			return []reflect.Value{goValueOf(cfg.Result, cfg.Named, cfg.Ret)}
 		})
 		if c := e.VM.RegisterFunction("gofn", fn.Interface()); c != nil {
 			return &sb.Rep{Outcome: sb.OK, Msg: "register: " + c.AsString(), Obs: []string{"!reg=" + c.AsString()}}
@@ -472,7 +506,7 @@ func TestC17(t *testing.T) {
 	cfg := sb.LoadConfig("C17")
 	rec := sb.NewRec(cfg)
 	defer rec.Flush()
-	rec.R.Rule = "complete enumeration of all signatures of arity 0..3 over parameter kinds {string, bool, int, int64, float64} x result kind {none, string, bool, int, int64, float64} (functions manufactured with reflect.MakeFunc and registered through RegisterFunction), sized kinds {int8 int16 int32 uint uint8 uint16 uint32 uint64 float32} at arity 1..2, a fixture struct through RegisterReflectClass, and utils.ConvertFromIndex[T] for every kind; argument values from boundary pools (min/max of each width, +-0.0, subnormals, empty / non-UTF-8 / 64 KiB strings) plus matching- and mismatching-kind values; rapid adds random values. Non-trivial = the signature contains a kind other than string, or a boundary value; distinct by (signature, values)."
+	rec.R.Rule = "complete enumeration of all signatures of arity 0..3 over parameter kinds {string, bool, int, int64, float64} x result kind {none, string, bool, int, int64, float64} (functions manufactured with reflect.MakeFunc and registered through RegisterFunction), sized kinds {int8 int16 int32 uint uint8 uint16 uint32 uint64 float32} at arity 1..2, named types (type NString string, type NInt int, ...) of every kind, a fixture struct through RegisterReflectClass, and utils.ConvertFromIndex[T] for every kind; argument values from boundary pools (min/max of each width, +-0.0, subnormals, empty / non-UTF-8 / 64 KiB strings) plus matching- and mismatching-kind values; rapid adds random values. Non-trivial = the signature contains a kind other than string, or a boundary value; distinct by (signature, values)."
 	pool := &sb.Pool{}
 	defer pool.Close()
 	dl := time.Now().Add(budget(cfg, 60, 700))
@@ -582,6 +616,8 @@ func TestC17(t *testing.T) {
 				c := c17Case{Cfg: goregCfg{Mode: mode, Params: []string{k}, Result: k, Ret: retFor(k, i), Args: []sb.ValDesc{a.D}}, Cell: cellOf(mode, []string{k}, k)}
 				run(c, []argVal{a})
 			}
+			cn := c17Case{Cfg: goregCfg{Mode: "func", Named: true, Params: []string{k}, Result: k, Ret: retFor(k, i), Args: []sb.ValDesc{a.D}}, Cell: cellOf("func-named", []string{k}, k)}
+			run(cn, []argVal{a})
 		}
 		for _, other := range []string{"int", "float", "string", "bool"} {
 			if other == matchingScriptKind(k) {
@@ -660,6 +696,11 @@ func TestC17(t *testing.T) {
 		c.Cfg.Result = rapid.SampledFrom(append([]string{""}, allKinds...)).Draw(rt, "res")
 		c.Cfg.Ret = retFor(c.Cfg.Result, rapid.IntRange(0, 20).Draw(rt, "ri"))
 		c.Cell = cellOf("func", c.Cfg.Params, c.Cfg.Result)
+		if rapid.IntRange(0, 3).Draw(rt, "named") == 0 {
+			c.Cfg.Named = true
+			c.Cell = cellOf("func-named", c.Cfg.Params, c.Cfg.Result)
+			rec.Label("random.named", "")
+		}
 		id, _ := json.Marshal(c.Cfg)
 		rec.NonTrivial(string(id))
 		rec.Label("random", "")
